@@ -1,0 +1,225 @@
+//go:build verif
+
+package keyproof
+
+// Export-only entry points for the verification harness in /verif (build tag "verif"): they let the
+// harness run the package's own component provers and verifiers on instances of its choosing.
+// Nothing here changes behaviour; without the tag this file is not compiled.
+
+import (
+	"github.com/privacybydesign/gabi/big"
+	"github.com/privacybydesign/gabi/zkproof"
+)
+
+// ---- quasi-safe prime product proofs (Gennaro et al.) ----
+
+func VerifSquareFreeBuild(n, phiN, challenge, index *big.Int) SquareFreeProof {
+	return squareFreeBuildProof(n, phiN, challenge, index)
+}
+func VerifSquareFreeVerify(n, challenge, index *big.Int, proof SquareFreeProof) (bool, bool) {
+	return squareFreeVerifyStructure(proof), squareFreeVerifyProof(n, challenge, index, proof)
+}
+func VerifPrimePowerProductBuild(p, q, challenge, index *big.Int) PrimePowerProductProof {
+	return primePowerProductBuildProof(p, q, challenge, index)
+}
+func VerifPrimePowerProductVerify(n, challenge, index *big.Int, proof PrimePowerProductProof) (bool, bool) {
+	ok := primePowerProductVerifyStructure(proof)
+	if !ok {
+		return false, false
+	}
+	return true, primePowerProductVerifyProof(n, challenge, index, proof)
+}
+func VerifDisjointPrimeProductBuild(p, q, challenge, index *big.Int) DisjointPrimeProductProof {
+	return disjointPrimeProductBuildProof(p, q, challenge, index)
+}
+func VerifDisjointPrimeProductVerify(n, challenge, index *big.Int, proof DisjointPrimeProductProof) (bool, bool) {
+	ok := disjointPrimeProductVerifyStructure(proof)
+	if !ok {
+		return false, false
+	}
+	return true, disjointPrimeProductVerifyProof(n, challenge, index, proof)
+}
+
+// VerifQuasiSafePrimeProductBuild runs commitment and response phase with the given challenge.
+func VerifQuasiSafePrimeProductBuild(pprime, qprime, challenge *big.Int) ([]*big.Int, QuasiSafePrimeProductProof) {
+	list, commit := quasiSafePrimeProductBuildCommitments(nil, pprime, qprime)
+	return list, quasiSafePrimeProductBuildProof(pprime, qprime, challenge, commit)
+}
+func VerifQuasiSafePrimeProductVerify(n, challenge *big.Int, proof QuasiSafePrimeProductProof) (structure bool, ok bool) {
+	if !quasiSafePrimeProductVerifyStructure(proof) {
+		return false, false
+	}
+	return true, quasiSafePrimeProductVerifyProof(n, challenge, proof)
+}
+
+// ---- Camenisch-style components ----
+
+// VerifEnv is a set of named pedersen commitments, as an enclosing proof provides them to a component.
+type VerifEnv struct {
+	g       zkproof.Group
+	names   []string
+	commits []pedersenCommit
+}
+
+func VerifNewEnv(groupPrime *big.Int) (*VerifEnv, bool) {
+	g, ok := zkproof.BuildGroup(groupPrime)
+	if !ok {
+		return nil, false
+	}
+	return &VerifEnv{g: g}, true
+}
+
+func (e *VerifEnv) Group() (p, order, g, h *big.Int) { return e.g.P, e.g.Order, e.g.G, e.g.H }
+
+// Add commits to a value under a name and returns the commitments this contributes.
+func (e *VerifEnv) Add(name string, value *big.Int) []*big.Int {
+	s := newPedersenStructure(name)
+	list, c := s.commitmentsFromSecrets(e.g, nil, value)
+	e.names = append(e.names, name)
+	e.commits = append(e.commits, c)
+	return list
+}
+
+func (e *VerifEnv) lookups() (zkproof.BaseMerge, zkproof.SecretMerge) {
+	var bl []zkproof.BaseLookup
+	var sl []zkproof.SecretLookup
+	for i := range e.commits {
+		bl = append(bl, &e.commits[i])
+		sl = append(sl, &e.commits[i])
+	}
+	bl = append(bl, &e.g)
+	return zkproof.NewBaseMerge(bl...), zkproof.NewSecretMerge(sl...)
+}
+
+// Proofs returns the pedersen proofs of the environment for a challenge.
+func (e *VerifEnv) Proofs(challenge *big.Int) []PedersenProof {
+	var out []PedersenProof
+	for i, n := range e.names {
+		s := newPedersenStructure(n)
+		out = append(out, s.buildProof(e.g, challenge, e.commits[i]))
+	}
+	return out
+}
+
+// VerifCheckEnv is the verifier's view: named pedersen proofs.
+func verifierLookups(g *zkproof.Group, names []string, proofs []PedersenProof) (zkproof.BaseMerge, zkproof.ProofMerge) {
+	var bl []zkproof.BaseLookup
+	var pl []zkproof.ProofLookup
+	for i := range proofs {
+		proofs[i].setName(names[i])
+		bl = append(bl, &proofs[i])
+		pl = append(pl, &proofs[i])
+	}
+	bl = append(bl, g)
+	return zkproof.NewBaseMerge(bl...), zkproof.NewProofMerge(pl...)
+}
+
+func catch(f func()) (panicked bool) {
+	defer func() {
+		if r := recover(); r != nil {
+			panicked = true
+		}
+	}()
+	f()
+	return
+}
+
+// VerifPedersenCheck: verifier side of a single pedersen proof.
+func VerifPedersenCheck(groupPrime *big.Int, name string, challenge *big.Int, proof PedersenProof) (structure bool, list []*big.Int, panicked bool) {
+	g, _ := zkproof.BuildGroup(groupPrime)
+	s := newPedersenStructure(name)
+	structure = s.verifyProofStructure(proof)
+	if !structure {
+		return
+	}
+	panicked = catch(func() { list = s.commitmentsFromProof(g, nil, challenge, proof) })
+	return
+}
+
+// VerifMulBuild: honest multiplication proof m1*m2 = result (mod mod) over the environment.
+func (e *VerifEnv) VerifMulBuild(m1, m2, mod, result string, l uint, challenge *big.Int) (fromSecrets []*big.Int, proof MultiplicationProof, isTrue bool) {
+	s := newMultiplicationProofStructure(m1, m2, mod, result, l)
+	bases, secrets := e.lookups()
+	isTrue = s.isTrue(&secrets)
+	list, commit := s.commitmentsFromSecrets(e.g, nil, &bases, &secrets)
+	return list, s.buildProof(e.g, challenge, commit, &secrets), isTrue
+}
+
+func VerifMulCheck(groupPrime *big.Int, names []string, env []PedersenProof, m1, m2, mod, result string, l uint, challenge *big.Int, proof MultiplicationProof) (structure bool, list []*big.Int, panicked bool) {
+	g, _ := zkproof.BuildGroup(groupPrime)
+	s := newMultiplicationProofStructure(m1, m2, mod, result, l)
+	structure = s.verifyProofStructure(proof)
+	if !structure {
+		return
+	}
+	bases, proofs := verifierLookups(&g, names, env)
+	panicked = catch(func() { list = s.commitmentsFromProof(g, nil, challenge, &bases, &proofs, proof) })
+	return
+}
+
+// VerifExpBuild: honest proof of base^exponent = result (mod mod).
+func (e *VerifEnv) VerifExpBuild(base, exponent, mod, result string, bitlen uint, challenge *big.Int) (fromSecrets []*big.Int, proof ExpProof, isTrue bool) {
+	s := newExpProofStructure(base, exponent, mod, result, bitlen)
+	bases, secrets := e.lookups()
+	isTrue = s.isTrue(&secrets)
+	list, commit := s.commitmentsFromSecrets(e.g, nil, &bases, &secrets)
+	return list, s.buildProof(e.g, challenge, commit, &secrets), isTrue
+}
+
+func VerifExpCheck(groupPrime *big.Int, names []string, env []PedersenProof, base, exponent, mod, result string, bitlen uint, challenge *big.Int, proof ExpProof) (structure bool, list []*big.Int, panicked bool) {
+	g, _ := zkproof.BuildGroup(groupPrime)
+	s := newExpProofStructure(base, exponent, mod, result, bitlen)
+	panicked = catch(func() { structure = s.verifyProofStructure(challenge, proof) })
+	if !structure || panicked {
+		return
+	}
+	bases, proofs := verifierLookups(&g, names, env)
+	panicked = catch(func() { list = s.commitmentsFromProof(g, nil, challenge, &bases, &proofs, proof) })
+	return
+}
+
+// VerifExpFake: a simulated exponentiation proof for a given challenge (as used inside OR-compositions).
+func VerifExpFake(groupPrime *big.Int, base, exponent, mod, result string, bitlen uint, challenge *big.Int) ExpProof {
+	g, _ := zkproof.BuildGroup(groupPrime)
+	s := newExpProofStructure(base, exponent, mod, result, bitlen)
+	return s.fakeProof(g, challenge)
+}
+
+// VerifPrimeBuild: honest proof that the value committed under name is prime.
+func (e *VerifEnv) VerifPrimeBuild(name string, bitlen uint, challenge *big.Int) (fromSecrets []*big.Int, proof PrimeProof) {
+	s := newPrimeProofStructure(name, bitlen)
+	bases, secrets := e.lookups()
+	list, commit := s.commitmentsFromSecrets(e.g, nil, &bases, &secrets)
+	return list, s.buildProof(e.g, challenge, commit, &secrets)
+}
+
+func VerifPrimeCheck(groupPrime *big.Int, names []string, env []PedersenProof, name string, bitlen uint, challenge *big.Int, proof PrimeProof) (structure bool, list []*big.Int, panicked bool) {
+	g, _ := zkproof.BuildGroup(groupPrime)
+	s := newPrimeProofStructure(name, bitlen)
+	panicked = catch(func() { structure = s.verifyProofStructure(challenge, proof) })
+	if !structure || panicked {
+		return
+	}
+	bases, proofs := verifierLookups(&g, names, env)
+	panicked = catch(func() { list = s.commitmentsFromProof(g, nil, challenge, &bases, &proofs, proof) })
+	return
+}
+
+// VerifIsSquareBuild: honest proof that the given values are squares modulo n = p*q.
+func VerifIsSquareBuild(groupPrime, p, q *big.Int, squares []*big.Int, challenge *big.Int) (fromSecrets []*big.Int, proof IsSquareProof) {
+	g, _ := zkproof.BuildGroup(groupPrime)
+	s := newIsSquareProofStructure(new(big.Int).Mul(p, q), squares)
+	list, commit := s.commitmentsFromSecrets(g, nil, p, q)
+	return list, s.buildProof(g, challenge, commit)
+}
+
+func VerifIsSquareCheck(groupPrime, n *big.Int, squares []*big.Int, challenge *big.Int, proof IsSquareProof) (structure bool, list []*big.Int, panicked bool) {
+	g, _ := zkproof.BuildGroup(groupPrime)
+	s := newIsSquareProofStructure(n, squares)
+	panicked = catch(func() { structure = s.verifyProofStructure(proof) })
+	if !structure || panicked {
+		return
+	}
+	panicked = catch(func() { list = s.commitmentsFromProof(g, nil, challenge, proof) })
+	return
+}
